@@ -4,7 +4,8 @@
 # work is running), confirms the baseline tests still pass and the demo fails, runs the given checks
 # against it (VERIF_REPO), prints a summary, and removes the worktree.
 set -u
-M="$1"; shift
+VERIF_DIR="$(cd "$(dirname "$0")/.." && pwd)"
+M="$(cd "$1" && pwd)"; shift
 WT=$(mktemp -d /tmp/mutrepo.XXXXXX)
 git -C /repo worktree add --detach "$WT" HEAD -q || exit 2
 trap 'git -C /repo worktree remove --force "$WT" >/dev/null 2>&1; rm -rf "$WT"' EXIT
@@ -16,7 +17,7 @@ echo "== demo on clean tree"; PYTHONPATH="$WT/src:$WT" MPLBACKEND=Agg timeout 18
 git apply "$M/patch.diff" || { echo "PATCH DOES NOT APPLY"; exit 2; }
 echo "== baseline tests with the change"; PYTHONPATH="$WT/src:$WT" /venv/bin/python -m pytest -q -p no:cacheprovider --timeout=900 2>&1 | tail -1
 echo "== demo with the change"; PYTHONPATH="$WT/src:$WT" MPLBACKEND=Agg timeout 1800 /venv/bin/python -W ignore "$DEMO" 2>&1 | tail -3; echo "demo(mutant) rc=${PIPESTATUS[0]}"
-cd /verif
+cd "$VERIF_DIR"
 for id in "$@"; do
   echo "== check $id against the change"
   out=$(VERIF_REPO="$WT" ./check "$id" --tier quick 2>&1); rc=$?
